@@ -566,7 +566,12 @@ class Parser:
                 val = self.expression()
             self.expect(";")
             return N("return", line, value=val)
-        if self.at("wait", "for", "while", "loop", "next", "exit"):
+        if self.at("wait"):
+            self.p += 1
+            if self.accept(";"):
+                return N("wait_forever", line)
+            raise Unsupported("wait statement with condition/timeout")
+        if self.at("for", "while", "loop", "next", "exit"):
             raise Unsupported(f"sequential {self.t.text}")
         target = self.target()
         if self.accept("<="):
